@@ -91,6 +91,8 @@ type env struct {
 	subjects map[string]bool
 	// abandoned: the case left the area the model describes (divergence owned by another property)
 	abandoned bool
+	// outsideRepeat: operations run directly by the property (not as rapid actions)
+	outsideRepeat bool
 }
 
 func (e *env) logf(f string, a ...any) { e.trace = append(e.trace, fmt.Sprintf(f, a...)) }
@@ -119,6 +121,9 @@ func (e *env) fail(key, f string, a ...any) {
 
 type abandonSignal struct{}
 
+// skipSignal: an operation found nothing to act on while it ran outside a rapid action (see env.skip).
+type skipSignal struct{}
+
 // abandon ends the case without judging it (the divergence belongs to another property).
 // The remaining steps of the case become no-ops (see actions / guard).
 func (e *env) abandon(why string) {
@@ -131,11 +136,21 @@ func (e *env) abandon(why string) {
 	panic(abandonSignal{})
 }
 
+// skip is t.Skip for operations that are also called outside t.Repeat (there a Skip would discard the whole case).
+func (e *env) skip(t *rapid.T, why string) {
+	if e.outsideRepeat {
+		panic(skipSignal{})
+	}
+	t.Skip(why)
+}
+
 // guard runs f and swallows the abandon signal.
 func (e *env) guard(f func()) {
 	defer func() {
 		if r := recover(); r != nil {
-			if _, ok := r.(abandonSignal); !ok {
+			_, isAbandon := r.(abandonSignal)
+			_, isSkip := r.(skipSignal)
+			if !isAbandon && !isSkip {
 				panic(r)
 			}
 		}
